@@ -34,8 +34,10 @@ def _add_extra(a, b):
 def make_account(rng, wc, account_id, extra_currencies=False):
     """account$1 addr storage_stat storage  (uninit / frozen / active with code+data)."""
     bits = '1' + enc_addr_std(wc, account_id)
-    bits += enc_var_uint(rng.randint(1, 50), 3) + enc_var_uint(rng.randint(1, 5000), 3) + enc_var_uint(0, 3)   # StorageUsed
-    bits += enc_uint(rng.getrandbits(32), 32) + '0'                                                           # last_paid, due_payment nothing
+    # StorageUsed cells bits public_cells (VarUInteger 7 each; public_cells is 0 for nearly every real account, any value is legal)
+    bits += enc_var_uint(rng.randint(1, 50), 3) + enc_var_uint(rng.randint(1, 5000), 3) + enc_var_uint(rng.choice([0, 0, 1, 255, 256, 1000, rng.getrandbits(40)]), 3)
+    bits += enc_uint(rng.getrandbits(32), 32)                                                                  # last_paid
+    bits += ('1' + enc_coins(rng.getrandbits(rng.choice([1, 30, 100])))) if rng.random() < 0.3 else '0'       # due_payment:(Maybe Grams)
     bits += enc_uint(rng.getrandbits(48), 64)                                                                   # last_trans_lt
     refs = []
     if extra_currencies and rng.random() < 0.5:
@@ -52,7 +54,10 @@ def make_account(rng, wc, account_id, extra_currencies=False):
     else:
         code = RCell(rbits(rng, rng.choice([8, 80, 500])), [RCell(rbits(rng, 64))] if rng.random() < 0.5 else [])
         data = RCell(rbits(rng, rng.choice([0, 32, 321])), [RCell(rbits(rng, 100), [RCell(rbits(rng, 9))])] if rng.random() < 0.5 else [])
-        bits += '1' + '0' + '0' + '1' + '1' + '0'   # no split_depth, no special, code, data, no library
+        bits += '1'                                                                                           # account_active
+        bits += ('1' + enc_uint(rng.choice([0, 1, 30, 31, rng.getrandbits(5)]), 5)) if rng.random() < 0.3 else '0'   # split_depth:(Maybe (## 5))
+        bits += ('1' + rng.choice(['00', '01', '10', '11'])) if rng.random() < 0.3 else '0'                          # special:(Maybe TickTock)
+        bits += '1' + '1' + '0'                                                                                # code, data, no library
         refs = refs + [code, data]
     return RCell(bits, refs)
 
